@@ -235,7 +235,9 @@ class Check:
         h = hashlib.sha1(json.dumps(replay_obj, sort_keys=True, default=str).encode()).hexdigest()[:10]
         path = os.path.join(VERIF, "replays", f"{self.pid}-{h}.json")
         with open(path, "w") as f:
-            json.dump({"property": self.pid, "what": what, "replay": replay_obj}, f, indent=1, default=str)
+            json.dump({"property": self.pid, "what": what, "tier": self.tier, "seed": self.seed,
+                       "how_to_replay": f"./check {self.pid} --replay <this file>  (re-runs the {self.tier} tier with VERIF_SEED={self.seed}; every input is derived from that seed)",
+                       "replay": replay_obj}, f, indent=1, default=str)
         self.violations.append({"what": what, "replay": os.path.relpath(path, VERIF), "found": failing_input_found, "group": group})
         return True
 
